@@ -88,3 +88,20 @@ func IDs() []string {
 	sort.Strings(r)
 	return r
 }
+
+// Helpers are small programs of a monitor that have to run in a process of their own (for example "load this
+// checkpoint in a process that has never saved anything"): `vrun helper <name> args...`.  They are started by the
+// monitor with HelperCommand and talk through their arguments, stdout and exit code.
+var helpers = map[string]func(args []string) int{}
+
+// RegisterHelper registers a helper program (called from init functions).
+func RegisterHelper(name string, f func(args []string) int) { helpers[name] = f }
+
+// RunHelper runs a registered helper; ok is false if there is none of that name.
+func RunHelper(name string, args []string) (code int, ok bool) {
+	f, ok := helpers[name]
+	if !ok {
+		return 2, false
+	}
+	return f(args), true
+}
